@@ -6,4 +6,7 @@ namespace PlzVerif.Visibility
 
 def generatedVFacts : VFacts := { samePkgChecksSubrepo := Generated.C33.canSeeMentionsSubrepo }
 
+/-- how `defaultFromConfig` decides "not set" on this run -/
+def generatedDFacts : DFacts := { unsetIsFalsy := Generated.C33.defaultUnsetTest != "ARG == nil || ARG == None" }
+
 end PlzVerif.Visibility
